@@ -366,13 +366,23 @@ def rsel(rnd, n, kinds=('int', 'slice', 'list')):
     return {'k': 'slice', 'h': h, 'v': v}
 
 
-def gen_step(rnd, sh, src, shadows, focus=None):
+def gen_step(rnd, sh, src, shadows, focus=None, strict=False):
+    """A random step; degenerate structures (no variable / dimension left)
+    fall back to a plain copy."""
+    try:
+        return _gen_step(rnd, sh, src, shadows, focus, strict)
+    except (IndexError, ValueError, KeyError):
+        return {'act': 'copy', 'src': src, 'others': [], 'args': {}}
+
+
+def _gen_step(rnd, sh, src, shadows, focus=None, strict=False):
     """One random in-domain-ish step on object `src` (1-based)."""
     dims = list(sh.dims)
     acts = ['copy', 'slice', 'apply', 'stack', 'subset', 'renamevar',
             'renamedim', 'rmsingle', 'insertdim', 'reorder', 'mask', 'arith',
             'eval']
-    act = focus if focus and rnd.random() < 0.7 else rnd.choice(acts)
+    act = focus if focus and (strict or rnd.random() < 0.7) \
+        else rnd.choice(acts)
     st = {'act': act, 'src': src, 'others': [], 'args': {}}
     a = st['args']
     if act == 'slice':
